@@ -6,7 +6,6 @@ import (
 	"encoding/json"
 	"flag"
 	"fmt"
-	"html"
 	"math"
 	"os"
 	"os/exec"
@@ -937,21 +936,11 @@ func (r *runner) readAnnsOp() {
 	r.out.Count("op:P/" + strings.SplitN(impl, " ", 2)[0])
 }
 
-func (r *runner) unescapeOp() {
-	x := r.randBytes() + r.g.r.Pick([]string{"", "&", "&amp;", "&lt;x", "&#34;", "& amp;", "&&"})
-	s := strings.ReplaceAll(x, "&", "&amp;")
-	if r.g.r.Chance(30) {
-		s = strings.ReplaceAll(s, "&", "&amp;")
-	}
-	r.out.Case("U "+vl.Hex(s), "ok "+vl.Hex(html.UnescapeString(s)), strings.Contains(s, "&"))
-	r.out.Count("op:U")
-}
-
 func run(repo, dir string, seed uint64, tier, trimmer string) error {
 	r := &runner{g: &gen{r: vl.NewRng(seed)}, out: vl.NewOut(dir)}
-	nProg, nHand, nR, nN, nA, nU, nTrim := 2000, 2000, 3000, 3000, 600, 600, 25
+	nProg, nHand, nR, nN, nA, nTrim := 2000, 2000, 3000, 3000, 600, 25
 	if tier == "thorough" {
-		nProg, nHand, nR, nN, nA, nU, nTrim = 100000, 40000, 60000, 60000, 5000, 5000, 400
+		nProg, nHand, nR, nN, nA, nTrim = 100000, 40000, 60000, 60000, 5000, 400
 	}
 	// fixed seeds of the search, always tried first: the shapes DESIGN §7 suspects and the minimal inputs of
 	// every round-trip failure met so far (so that each run re-checks them whatever the seed)
@@ -1016,9 +1005,6 @@ func run(repo, dir string, seed uint64, tier, trimmer string) error {
 	for i := 0; i < nR/2; i++ {
 		r.readCVOp()
 		r.readAnnsOp()
-	}
-	for i := 0; i < nU; i++ {
-		r.unescapeOp()
 	}
 	if trimmer != "" {
 		for i := 0; i < nTrim; i++ {
